@@ -51,7 +51,7 @@ def gen_constants():
             return False, out[-2000:]
     # function translator: pure integer functions of the Rust sources -> Generated/Functions.lean (tools/gen_functions.py)
     # step-order translator: the order of the effectful steps of commit / sync / recovery functions -> Generated/StepOrder.lean (tools/gen_steps.py)
-    for g2 in ("gen_functions.py", "gen_steps.py"):
+    for g2 in ("gen_functions.py", "gen_steps.py", "gen_layouts.py"):
         g2 = os.path.join(ROOT, "tools", g2)
         if os.path.exists(g2):
             rc, out = sh([sys.executable, g2], cwd=ROOT, timeout=120)
